@@ -5,6 +5,7 @@ import (
 	"encoding/json"
 	"fmt"
 	"runtime"
+	"sync"
 	"testing"
 
 	"github.com/Breeze0806/gobinlog"
@@ -244,6 +245,39 @@ func checkC08(c *StabilityCase) error {
 	return verify("after a second stream ran")
 }
 
+// checkC08Twice runs the scenario in two streamers of one process at the same time (one of them with the
+// other handler behaviour): what one streamer delivered must not depend on what the other one is doing.
+func checkC08Twice(c *StabilityCase) error {
+	raw, err := json.Marshal(c)
+	if err != nil {
+		return fmt.Errorf("harness: %v", err)
+	}
+	var c2 StabilityCase
+	if err := json.Unmarshal(raw, &c2); err != nil {
+		return fmt.Errorf("harness: %v", err)
+	}
+	c2.Scribble = !c.Scribble
+	if c2.Scribble {
+		c2.Leaves = false
+	}
+	errs := make([]error, 2)
+	var wg sync.WaitGroup
+	for i, x := range []*StabilityCase{c, &c2} {
+		wg.Add(1)
+		go func(i int, x *StabilityCase) {
+			defer wg.Done()
+			errs[i] = checkC08(x)
+		}(i, x)
+	}
+	wg.Wait()
+	for i, e := range errs {
+		if e != nil {
+			return fmt.Errorf("streamer %d of 2 running at the same time: %v", i, e)
+		}
+	}
+	return nil
+}
+
 func init() {
 	registerReplay("c08", func(raw json.RawMessage) error {
 		var c StabilityCase
@@ -251,6 +285,19 @@ func init() {
 			return err
 		}
 		return checkC08(&c)
+	})
+	registerReplay("c08twice", func(raw json.RawMessage) error {
+		var c StabilityCase
+		if err := json.Unmarshal(raw, &c); err != nil {
+			return err
+		}
+		// a schedule-dependent failure may need several tries
+		for i := 0; i < 20; i++ {
+			if err := checkC08Twice(&c); err != nil {
+				return err
+			}
+		}
+		return nil
 	})
 }
 
@@ -409,9 +456,21 @@ func TestC08(t *testing.T) {
 		if maxPkt > 4096 {
 			cls = append(cls, "packet>4KiB")
 		}
+		twice := c.FailAt == 0 && rapid.IntRange(0, 7).Draw(rt, "two_streamers_at_once") == 0
+		if twice {
+			cls = append(cls, "two-streamers-at-the-same-time")
+		}
 		rec.Case(nt, c, cls...)
 		if nt {
 			rec.Sample(c)
+		}
+		if twice {
+			journal("C08", "c08twice", c)
+			if err := checkC08Twice(c); err != nil {
+				rec.Violation("c08twice", c, "", err)
+				rt.Fatalf("C08 violation: %v", err)
+			}
+			return
 		}
 		journal("C08", "c08", c)
 		if err := checkC08(c); err != nil {
